@@ -1,5 +1,5 @@
 SPECIFICATION Spec
-CONSTANTS NLoops = 2  MaxConns = 2  MaxRegs = 1  ReusePort = FALSE  Ticker = TRUE
+CONSTANTS NLoops = 2  MaxConns = 2  MaxRegs = 1  ReusePort = FALSE  LB = "any"  Ticker = TRUE
           Sources = {"stop", "open", "traffic", "close", "tick", "fail", "boot"}
 INVARIANTS TypeOK OnShutdownOnce AllOpenedClosedBeforeReturn NothingRunsAfterReturn BootShutdownStartsNothing ListenersOutliveLoops
            MainLast InShutdownMeansDone LeakOnlyBehindExit QueuedIsInQueue UnansweredOnlyBehindExit
